@@ -250,7 +250,7 @@ def classify(c):
 
 def finish(prop, tier, seed, t0, cases, viols, stats, states, trans, known, rule, models, extra=None):
     byid = {c["case"]: c for c in cases}
-    os.makedirs(os.path.join(core.VERIF, "replays"), exist_ok=True)
+    os.makedirs(os.path.join(core.OUT, "replays"), exist_ok=True)
     new, known_hits, byclause = [], {}, {}
     for v in viols:
         c = byid[v[0]]
@@ -277,7 +277,7 @@ def finish(prop, tier, seed, t0, cases, viols, stats, states, trans, known, rule
         seen.add(sig)
         if len(seen) > 25:
             continue
-        path = os.path.join(core.VERIF, "replays", "%s-%s.json" % (prop, sig))
+        path = os.path.join(core.OUT, "replays", "%s-%s.json" % (prop, sig))
         with open(path, "w") as fh:
             json.dump({"property": prop, "kind": "geom", "clause": clause, "where": where, "case": geom_signature(c)}, fh, indent=1)
         print("VIOLATION property=%s replay=%s" % (prop, path))
